@@ -511,10 +511,7 @@ func (x *Exec) evSelector(st *State, e *ast.SelectorExpr) Val {
 // opaqueField: field f of an opaque (library) struct value
 func (x *Exec) opaqueField(base Val, t types.Type, f *types.Var) Val {
 	fs := x.vc.sortOf(f.Type())
-	name := "fld_" + sanitize(typeKey(t)) + "__" + sanitize(f.Name())
-	if len(name) > 120 {
-		name = name[:120]
-	}
+	name := opaqueFieldName(t, f.Name())
 	x.vc.declFun(name, []string{base.Sort}, fs)
 	x.vc.note("field " + f.Name() + " of library struct " + typeKey(t) + " read as an uninterpreted function (writes to it are not modelled)")
 	return Val{T: fmt.Sprintf("(%s %s)", name, base.T), Sort: fs, GoT: f.Type()}
